@@ -33,7 +33,7 @@ def run_in_coq(cases, timeout=600):
         for i in range(0, len(cases), 200):
             part = cases[i:i + 200]
             src = ["From Coq Require Import ZArith List. Import ListNotations.",
-                   "From OvldV Require Import Model.Sx Model.Run.",
+                   "From OvldV Require Import Model.Sx Gen.RunAll.",
                    "Definition cases : list sx := ["]
             src.append(";\n".join(sexp.to_coq(c) for c in part))
             src.append("].")
